@@ -2549,6 +2549,10 @@ func (iter *CellIterator) Progress() float64 {
 
 // ForEach 遍历所有单元格，对每个单元格执行指定函数
 func (t *Table) ForEach(fn func(row, col int, cell *TableCell, text string) error) error {
+	if fn == nil {
+		return fmt.Errorf("回调函数不能为空")
+	}
+
 	iterator := t.NewCellIterator()
 
 	for iterator.HasNext() {
@@ -2567,6 +2571,10 @@ func (t *Table) ForEach(fn func(row, col int, cell *TableCell, text string) erro
 
 // ForEachInRow 遍历指定行的所有单元格
 func (t *Table) ForEachInRow(rowIndex int, fn func(col int, cell *TableCell, text string) error) error {
+	if fn == nil {
+		return fmt.Errorf("回调函数不能为空")
+	}
+
 	if rowIndex < 0 || rowIndex >= t.GetRowCount() {
 		return fmt.Errorf("行索引无效: %d", rowIndex)
 	}
@@ -2590,6 +2598,10 @@ func (t *Table) ForEachInRow(rowIndex int, fn func(col int, cell *TableCell, tex
 
 // ForEachInColumn 遍历指定列的所有单元格
 func (t *Table) ForEachInColumn(colIndex int, fn func(row int, cell *TableCell, text string) error) error {
+	if fn == nil {
+		return fmt.Errorf("回调函数不能为空")
+	}
+
 	if colIndex < 0 || colIndex >= t.GetColumnCount() {
 		return fmt.Errorf("列索引无效: %d", colIndex)
 	}
@@ -2650,6 +2662,10 @@ func (t *Table) GetCellRange(startRow, startCol, endRow, endCol int) ([]*CellInf
 
 // FindCells 查找满足条件的单元格
 func (t *Table) FindCells(predicate func(row, col int, cell *TableCell, text string) bool) ([]*CellInfo, error) {
+	if predicate == nil {
+		return nil, fmt.Errorf("查找条件函数不能为空")
+	}
+
 	var matchedCells []*CellInfo
 
 	err := t.ForEach(func(row, col int, cell *TableCell, text string) error {
